@@ -14,7 +14,8 @@ RULE = ('every string of the bounded-exhaustive corpus (26-character alphabet in
         'random Unicode texts, lexed with the graph and the triple-conjunction pattern, as one '
         'string and (random part) as a list of lines with and without terminators; alignment-shaped '
         'texts with unusual prefix letters/digits (long s, Kelvin sign, dotless i, full-width and '
-        'Arabic-Indic digits); a sample lexed with DEBUG logging enabled. Non-trivial: '
+        'Arabic-Indic digits); a sample lexed with DEBUG logging enabled; formatted graphs with # " ~ : / ( ) '
+        '\\ ^ , inserted exactly at a token start or end (found with the reference lexer). Non-trivial: '
         'the string yields at least two tokens.')
 ANCHORS = ['penman._lexer:lex', 'penman._lexer:_lex']
 PROBES = {'C08': 0, 'C07': 0}
